@@ -68,7 +68,10 @@ def random_stack(rng, addresses):
         allowed = tuple(sorted(a for a in addresses if rng.random() < 0.6))
         if rng.random() < 0.3:
             allowed = allowed + ("10.99.0.1",)
-        base = ("wl", allowed)
+        # the user may spell an allowed host differently from Host.address (a name, a non-canonical literal):
+        # the policy resolves its list with getaddrinfo; the reference membership is by RESOLVED address
+        spelled = tuple(spell(a, rng) if rng.random() < 0.5 else a for a in allowed)
+        base = ("wl", spelled, resolve_all(spelled))
     wrappers = rng.choice([(), (), ("hf",), ("default",), ("dse",), ("ta",), ("hf", "default"), ("hf", "ta"), ("ta", "hf"),
                            ("hf", "dse"), ("ta", "default")])
     preds = []
@@ -85,6 +88,43 @@ def random_stack(rng, addresses):
                 preds.append((kind,))
     shuffle = rng.random() < 0.5
     return {"base": base, "wrappers": wrappers, "preds": tuple(preds), "ta_shuffle": shuffle}
+
+
+_SPELLINGS = {"127.0.0.1": ("localhost", "127.1", "0x7f.1", "127.0.1", "2130706433"),
+              "::1": ("::0:1", "0:0:0:0:0:0:0:1", "::0001")}
+_RESOLVED = {}
+
+
+def resolve(name):
+    """What the operating system makes of one white-list entry (no DNS needed for the spellings used here)."""
+    import socket
+    if name not in _RESOLVED:
+        _RESOLVED[name] = frozenset(e[4][0] for e in socket.getaddrinfo(name, None, socket.AF_UNSPEC, socket.SOCK_STREAM))
+    return _RESOLVED[name]
+
+
+def resolve_all(names):
+    out = set()
+    for n in names:
+        out |= resolve(n)
+    return tuple(sorted(out))
+
+
+def spell(addr, rng):
+    """Another way of writing ``addr`` that resolves to it offline; falls back to ``addr`` itself."""
+    options = list(_SPELLINGS.get(addr, ()))
+    parts = addr.split(".")
+    if len(parts) == 4 and all(p.isdigit() for p in parts):
+        a, b, c, d = [int(p) for p in parts]
+        options += ["%d.%d.%d" % (a, b, c * 256 + d), "0x%x.%d.%d.%d" % (a, b, c, d), str((a << 24) | (b << 16) | (c << 8) | d)]
+    rng.shuffle(options)
+    for o in options:
+        try:
+            if addr in resolve(o):
+                return o
+        except OSError:
+            continue
+    return addr
 
 
 def predicate_fn(p):
@@ -285,7 +325,7 @@ class Harness(object):
 
     def accepted(self, h):
         base = self.stack["base"]
-        if base[0] == "wl" and h.address not in base[1]:
+        if base[0] == "wl" and h.address not in base[2]:
             return False
         return all(fn(h) for fn in self.pred_fns)
 
@@ -498,6 +538,11 @@ def random_universe(rng):
     for i in range(n):
         dc = DCS[rng.randrange(n_dcs)] if rng.random() < 0.7 else DCS[0]
         nodes.append(("10.0.%d.%d" % (DCS.index(dc) + 1, i + 1), dc, rng.choice(["r1", "r1", "r2"])))
+    # some clusters live on the loopback addresses (what 'localhost' / '127.1' / '::0:1' resolve to)
+    if rng.random() < 0.2:
+        nodes[0] = ("127.0.0.1",) + nodes[0][1:]
+        if len(nodes) > 1 and rng.random() < 0.5:
+            nodes[1] = ("::1",) + nodes[1][1:]
     return nodes
 
 
@@ -631,6 +676,14 @@ def finish(ctx, hx):
     ctx.count("sequences")
     ctx.count("events", len(hx.sig))
     ctx.count("sequences_" + hx.stack["base"][0])
+    if hx.stack["base"][0] == "wl":
+        b = hx.stack["base"]
+        respelled = [n for n in b[1] if n not in b[2]]
+        if respelled:
+            ctx.count("sequences_wl_with_entry_spelled_unlike_host_address")
+            live_via_add = [e for e in hx.sig if e[0] == "add" and e[1] in b[2] and any(e[1] in resolve(n) for n in respelled)]
+            if live_via_add:
+                ctx.count("sequences_wl_respelled_host_arrives_through_on_add")
     for w in set(hx.stack["wrappers"]):
         ctx.count("sequences_with_" + w)
     if hx.flow == "connect":
@@ -654,6 +707,8 @@ def run(ctx):
                "follows the callbacks only - Host.is_up is not consulted")
     ctx.assume("hosts of unknown datacenter count as local (Host.datacenter or local_dc), as DCAwareRoundRobinPolicy documents for "
                "contact points; an inferred local_dc is the datacenter of the first contact point located through on_up/on_add")
+    ctx.assume("white-list entries may be spelled unlike Host.address (localhost, 127.1, 0x7f.1, a.b.N, decimal, ::0:1 ...); only "
+               "spellings that socket.getaddrinfo resolves in this sandbox without DNS are used; reference membership is by resolved address")
     ctx.assume("with a HostFilterPolicy above a DCAware policy only '<= used_hosts_per_remote_dc per remote DC' is demanded (the child "
                "slices before the filter); without a filter exactly min(used_hosts_per_remote_dc, live hosts of the DC)")
     rng = ctx.rng
@@ -673,6 +728,8 @@ def run(ctx):
     ctx.floor_distinct = 3000 if ctx.quick else 500000
     ctx.floor_counters = {"sequences": 4000, "plans_judged": 60000, "distance_evaluations": 100000, "callbacks_delivered": 30000,
                           "location_updates": 3000, "local_dc_inferences": 300, "plans_with_remote_part": 3000,
-                          "sequences_rr": 300, "sequences_dc": 1500, "sequences_wl": 300, "sequences_with_hf": 500,
+                          "sequences_rr": 300, "sequences_dc": 1500, "sequences_wl": 300,
+                          "sequences_wl_with_entry_spelled_unlike_host_address": 150,
+                          "sequences_wl_respelled_host_arrives_through_on_add": 40, "sequences_with_hf": 500,
                           "sequences_with_default": 200, "sequences_with_dse": 100, "sequences_with_ta": 300,
                           "target_host_plans_judged": 1000, "sequences_connect_flow": 1500, "sequences_add_profile_flow": 1500}
